@@ -607,6 +607,12 @@ class Interp:
     def st_For(self, st, env):
         it = self.eval(st.iter, env)
         items = B.concrete_items(self, it)
+        if items is None and isinstance(it, SAny) and not self.spec():
+            # iteration over an untyped value: strings iterate their characters, None / numbers raise
+            if self.ctx.branch(PV.is_PStr(it.t), 'iter-str@%s' % st.lineno):
+                it = SStr(PV.s(it.t))
+            elif not self.ctx.branch(z3.Or(PV.is_PList(it.t), PV.is_PTuple(it.t)), 'iter-seq@%s' % st.lineno):
+                self.raise_py('TypeError', 'object is not iterable', st.lineno)
         if items is not None:
             for x in items:
                 self.assign(st.target, x, env)
